@@ -2307,7 +2307,11 @@ static program_t *epilog ()
 #endif
     )
     {
-      save_binary (prog, &mem_block[A_INCLUDES], &mem_block[A_PATCH]);
+      /* the binary keeps the size of the file and line number table in 16 bits
+       * (file_info[0]): a program with a larger table is not saved, like one
+       * that is too large itself */
+      if (lnsz <= USHRT_MAX)
+        save_binary (prog, &mem_block[A_INCLUDES], &mem_block[A_PATCH]);
     }
 #endif
 
